@@ -302,16 +302,20 @@ end Tmpl
 /-! ## 3. the CP2K section-tree editor (`update_cp2k_input`)
 
 Model: arena of nodes + roots + `node_ref` (Python dict semantics), children in insertion order;
-all comparisons in the tie are on canonical trees (sibling order immaterial).
-The code is NOT idempotent and NOT exact in general — seven defects, each with a
-`…_counterexample` / `…_witness` below and a signature `C19:cp2k:…` in the tie; the general
-theorems hold under exactly the stated guards. -/
+all comparisons in the tie are on canonical trees (sibling order immaterial).  The model follows
+the code after fix 6e4f7f3 (created sections keep their values, `None` values give the bare
+key, section parameters are added once, `replace` leaves unrequested parameters alone); the
+four findings it repaired are kept as `cp2k_asIs_…` records about `…AsIs` copies of the old
+functions.  Two findings are open (`set_parents`): `cp2k_third_duplicate_bare`,
+`cp2k_duplicate_children_counterexample`. -/
 section Cp2k
 open Infretis.Cp2k
 
 /-- **edit_exact (CP2K), target present.**  Exactly the target node changes: merge law (existing
     keys rewritten in place, new keys appended in dict order, `None` → bare key) or replace law;
-    settings appended (`+=`) or replaced; every other node, the roots and `node_ref` unchanged. -/
+    section parameters: untouched when not requested, replaced in replace mode, otherwise the
+    requested ones that are not there yet are appended (`newSettings`); every other node, the
+    roots and `node_ref` unchanged. -/
 theorem cp2k_edit_exact_present (u : Upd) (st : St) (i : Nat) (n : Node)
     (href : dget u.target st.ref = some i) (hn : st.arena[i]? = some n)
     (hmode : u.replace = true ∨ (u.isList = false ∧ ∀ l ∈ n.data, (firstTok l).isSome = true)) :
@@ -319,7 +323,7 @@ theorem cp2k_edit_exact_present (u : Upd) (st : St) (i : Nat) (n : Node)
       st'.arena.length = st.arena.length ∧ (∀ j, j ≠ i → st'.arena[j]? = st.arena[j]?) ∧
       st'.arena[i]? = some { n with
         data := if u.replace then u.data.map (·.1) else mergeSpec u.data n.data,
-        settings := if u.replace then u.settings else n.settings ++ u.settings } :=
+        settings := newSettings u.settings u.replace n.settings } :=
   Infretis.Cp2k.cp2k_edit_exact_present u st i n href hn hmode
 
 /-- the two loops of `update_node` compute the merge specification -/
@@ -330,38 +334,70 @@ theorem cp2k_merge_eq_spec (u : Upd) (old : List Str) (hl : u.isList = false)
 
 /-- **edit_exact (CP2K), target absent.**  The new state extends the old one (no existing node
     changes; children lists and roots only grow; keys keep their nodes) and the last node is the
-    requested one — carrying, as data, only the KEYS of the requested dict (`list(data)`:
-    the requested values are dropped, see `cp2k_new_section_drops_values_witness`). -/
+    requested one: requested parameters (or none) and one `KEY value` line (bare `KEY` for a
+    `None` value) per requested entry. -/
 theorem cp2k_edit_exact_absent (u : Upd) (st : St) (hwf : RefOk st) (habs : dget u.target st.ref = none) :
     ∃ st', updateNode u st = .ok st' ∧ RefOk st' ∧ Ext st st' ∧ st.arena.length < st'.arena.length ∧
       ∃ nn, st'.arena[st'.arena.length - 1]? = some nn ∧ dget u.target st'.ref = some (st'.arena.length - 1) ∧
-        (splitArrow u.target).getLast? = some nn.title ∧ nn.settings = u.settings ∧
-        nn.data = u.data.map (·.1) ∧ nn.children = [] :=
+        (splitArrow u.target).getLast? = some nn.title ∧ nn.settings = u.settings.getD [] ∧
+        nn.data = u.data.map fmtEntry ∧ nn.children = [] :=
   Infretis.Cp2k.cp2k_edit_exact_absent u st hwf habs
 
-/-- **edit_idempotent (CP2K)** under the guard that excludes the defects: `replace`, or no
-    settings and a dict of token keys without `None` values. -/
-theorem cp2k_edit_idempotent_partial (u : Upd) (st st1 : St) (i : Nat)
+/-- **edit_idempotent (CP2K), target present — full.**  A second application of the same update
+    entry returns the same state.  Remaining guard: none in replace mode or for list data; in
+    merge mode with dict data the keys are distinct non-empty white-space-free tokens (`DataOk`).
+    Section parameters are unconstrained and `None` values allowed. -/
+theorem cp2k_edit_idempotent (u : Upd) (st st1 : St) (i : Nat)
     (href : dget u.target st.ref = some i) (h1 : updateNode u st = .ok st1)
-    (hg : u.replace = true ∨ (u.settings = [] ∧ u.isList = false ∧ DataOk u.data)) :
+    (hg : u.replace = true ∨ u.isList = true ∨ DataOk u.data) :
     updateNode u st1 = .ok st1 :=
-  Infretis.Cp2k.cp2k_edit_idempotent_partial u st st1 i href h1 hg
+  Infretis.Cp2k.cp2k_edit_idempotent u st st1 i href h1 hg
 
-/-- `node.settings += settings`: `&MD X` becomes `&MD X X` on the second application
-    (signature C19:cp2k:settings-appended-twice) -/
-theorem cp2k_edit_idempotent_counterexample :
-    updateInput tplMD [updSettings] [] = .ok "&MOTION\n  &MD X\n    STEPS 10\n  &END MD\n&END MOTION\n".toList ∧
-    updateInput "&MOTION\n  &MD X\n    STEPS 10\n  &END MD\n&END MOTION\n".toList [updSettings] [] =
+/-- **edit_idempotent (CP2K), target absent.**  After the section has been created, applying the
+    same (merge-mode, dict) entry again changes nothing. -/
+theorem cp2k_edit_idempotent_absent (u : Upd) (st st1 : St) (hwf : RefOk st) (habs : dget u.target st.ref = none)
+    (hr : u.replace = false) (hl : u.isList = false) (hok : DataOk u.data)
+    (h1 : updateNode u st = .ok st1) : updateNode u st1 = .ok st1 :=
+  Infretis.Cp2k.cp2k_edit_idempotent_absent u st st1 hwf habs hr hl hok h1
+
+/-- the repaired behaviour on the four former witnesses -/
+theorem cp2k_fixed_witnesses :
+    (updateInput tplMD [updSettings] [] = .ok "&MOTION\n  &MD X\n    STEPS 10\n  &END MD\n&END MOTION\n".toList ∧
+     updateInput "&MOTION\n  &MD X\n    STEPS 10\n  &END MD\n&END MOTION\n".toList [updSettings] [] =
+       .ok "&MOTION\n  &MD X\n    STEPS 10\n  &END MD\n&END MOTION\n".toList) ∧
+    (updateInput tplMD [updNone] [] = .ok "&MOTION\n  &MD\n    STEPS 10\n    FOO\n  &END MD\n&END MOTION\n".toList ∧
+     updateInput "&MOTION\n  &MD\n    STEPS 10\n    FOO\n  &END MD\n&END MOTION\n".toList [updNone] [] =
+       .ok "&MOTION\n  &MD\n    STEPS 10\n    FOO\n  &END MD\n&END MOTION\n".toList) ∧
+    updateInput tplMD [updEach] [] =
+      .ok "&MOTION\n  &MD\n    STEPS 10\n  &END MD\n  &PRINT\n    &EACH\n      MD 5\n    &END EACH\n  &END PRINT\n&END MOTION\n".toList ∧
+    updateInput tplKY [updReplace] [] = .ok "&A\n  &K Y\n    W 9\n  &END K\n&END A\n".toList :=
+  ⟨Infretis.Cp2k.cp2k_fixed_settings_once, Infretis.Cp2k.cp2k_fixed_none_value,
+   Infretis.Cp2k.cp2k_fixed_new_section_keeps_values, Infretis.Cp2k.cp2k_fixed_replace_keeps_settings⟩
+
+/-- RECORD (code before 6e4f7f3, finding C19:cp2k:settings-appended-twice): `&MD X` → `&MD X X` -/
+theorem cp2k_asIs_settings_appended_twice :
+    updateInputAsIs tplMD [updSettings] [] = .ok "&MOTION\n  &MD X\n    STEPS 10\n  &END MD\n&END MOTION\n".toList ∧
+    updateInputAsIs "&MOTION\n  &MD X\n    STEPS 10\n  &END MD\n&END MOTION\n".toList [updSettings] [] =
       .ok "&MOTION\n  &MD X X\n    STEPS 10\n  &END MD\n&END MOTION\n".toList :=
-  Infretis.Cp2k.cp2k_edit_idempotent_counterexample
+  Infretis.Cp2k.cp2k_asIs_settings_appended_twice
 
-/-- a `None` value prints `FOO` first and `FOO None` on the second application
-    (signature C19:cp2k:none-value-printed-as-None) -/
-theorem cp2k_edit_idempotent_none_counterexample :
-    updateInput tplMD [updNone] [] = .ok "&MOTION\n  &MD\n    STEPS 10\n    FOO\n  &END MD\n&END MOTION\n".toList ∧
-    updateInput "&MOTION\n  &MD\n    STEPS 10\n    FOO\n  &END MD\n&END MOTION\n".toList [updNone] [] =
+/-- RECORD (finding C19:cp2k:none-value-printed-as-None): `FOO`, then `FOO None` -/
+theorem cp2k_asIs_none_value :
+    updateInputAsIs tplMD [updNone] [] = .ok "&MOTION\n  &MD\n    STEPS 10\n    FOO\n  &END MD\n&END MOTION\n".toList ∧
+    updateInputAsIs "&MOTION\n  &MD\n    STEPS 10\n    FOO\n  &END MD\n&END MOTION\n".toList [updNone] [] =
       .ok "&MOTION\n  &MD\n    STEPS 10\n    FOO None\n  &END MD\n&END MOTION\n".toList :=
-  Infretis.Cp2k.cp2k_edit_idempotent_none_counterexample
+  Infretis.Cp2k.cp2k_asIs_none_value
+
+/-- RECORD (finding C19:cp2k:new-section-drops-values): the requested `MD 5` was printed as `MD` -/
+theorem cp2k_asIs_new_section_drops_values :
+    updateInputAsIs tplMD [updEach] [] =
+      .ok "&MOTION\n  &MD\n    STEPS 10\n  &END MD\n  &PRINT\n    &EACH\n      MD\n    &END EACH\n  &END PRINT\n&END MOTION\n".toList :=
+  Infretis.Cp2k.cp2k_asIs_new_section_drops_values
+
+/-- RECORD (finding C19:cp2k:replace-wipes-settings): `&K Y` became `&K` -/
+theorem cp2k_asIs_replace_wipes_settings :
+    updateInputAsIs tplKY [updReplace] [] = .ok "&A\n  &K\n    W 9\n  &END K\n&END A\n".toList :=
+  Infretis.Cp2k.cp2k_asIs_replace_wipes_settings
 
 /-- removal is idempotent -/
 theorem cp2k_remove_idempotent (target : Str) (st st' : St) (hn : (st.ref.map (·.1)).Nodup)
@@ -377,8 +413,8 @@ theorem cp2k_duplicates_pair_partial (arena : List Node) (ref : List (Str × Nat
     dget (pathKey arena a) (register arena (register arena ref a) b) = none :=
   Infretis.Cp2k.register_pair arena ref a b hp habs hs
 
-/-- …but a THIRD sibling with the same title is registered under the bare path and cannot be
-    addressed by its settings, for any arena (signature C19:cp2k:third-duplicate-bare-key) -/
+/-- OPEN finding C19:cp2k:third-duplicate-bare-key: a THIRD sibling with the same title is
+    registered under the bare path and cannot be addressed by its settings, for any arena -/
 theorem cp2k_third_duplicate_bare (arena : List Node) (ref : List (Str × Nat)) (a b c : Nat)
     (hpb : pathKey arena b = pathKey arena a) (hpc : pathKey arena c = pathKey arena a)
     (habs : dget (pathKey arena a) ref = none)
@@ -394,14 +430,16 @@ theorem cp2k_three_duplicates_counterexample :
     (readText tpl3).map (fun rs => rs.toSt.ref) =
       .ok [("A".toList, 0), ("A->K->X".toList, 1), ("A->K->Y".toList, 2), ("A->K".toList, 3)] ∧
     updateInput tpl3 [updZ] [] =
-      .ok "&A\n  &K X\n  &END K\n  &K Y\n  &END K\n  &K Z\n    &Z\n      V\n    &END Z\n  &END K\n&END A\n".toList :=
+      .ok "&A\n  &K X\n  &END K\n  &K Y\n  &END K\n  &K Z\n    &Z\n      V 9\n    &END Z\n  &END K\n&END A\n".toList :=
   Infretis.Cp2k.cp2k_three_duplicates_counterexample
 
-/-- a newly created section gets the dict KEYS only (signature C19:cp2k:new-section-drops-values) -/
-theorem cp2k_new_section_drops_values_witness :
-    updateInput tplMD [updEach] [] =
-      .ok "&MOTION\n  &MD\n    STEPS 10\n  &END MD\n  &PRINT\n    &EACH\n      MD\n    &END EACH\n  &END PRINT\n&END MOTION\n".toList :=
-  Infretis.Cp2k.cp2k_new_section_drops_values_witness
+/-- OPEN finding C19:cp2k:duplicate-children-unaddressable: a child of a disambiguated duplicate
+    is registered without the suffix, so `A->K->X->NEW` creates a new `&NEW` on every application -/
+theorem cp2k_duplicate_children_counterexample :
+    updateInput tpl2 [updThrough] [] = .ok "&A\n  &K X\n    &NEW\n    &END NEW\n  &END K\n  &K Y\n  &END K\n&END A\n".toList ∧
+    updateInput "&A\n  &K X\n    &NEW\n    &END NEW\n  &END K\n  &K Y\n  &END K\n&END A\n".toList [updThrough] [] =
+      .ok "&A\n  &K X\n    &NEW\n    &END NEW\n    &NEW\n    &END NEW\n  &END K\n  &K Y\n  &END K\n&END A\n".toList :=
+  Infretis.Cp2k.cp2k_duplicate_children_counterexample
 
 example : dget updMerge.target stMD.ref = some 1 ∧ stMD.arena[1]?.isSome = true ∧ updMerge.isList = false := by decide
 
